@@ -25,4 +25,16 @@ theorem deref_is_field_place (kind : Kind) (s : ItemStruct) (e : Entry) (f : Fie
   subst hb
   exact ⟨rfl, rfl, rfl⟩
 
+/-- `Target` is declared as the field's type, token for token, and nowhere else does the impl's signature mention it: the
+method's return type is spelled `&<Self as ::core::ops::Deref>::Target`, whatever the field type looks like (unsized trait
+objects included) -/
+theorem deref_sig_free_of_field_type (d : DerefImpl) (ty : Ty) :
+    ({ d with field := { d.field with field := { d.field.field with ty := ty } } } : DerefImpl).sig = d.sig := rfl
+
+theorem deref_returns_trait_target (d : DerefImpl) :
+    d.sig.strs = (if d.mut_ then ["fn", "deref_mut", "(", "&", "mut", "self", ")", "->", "&", "mut"] else ["fn", "deref", "(", "&", "self", ")", "->", "&"]) ++
+      ["<", "Self", "as", "::", "core", "::", "ops", "::", "Deref", ">", "::", "Target"] := by
+  unfold DerefImpl.sig
+  cases d.mut_ <;> rfl
+
 end DX
